@@ -286,7 +286,9 @@ fn main() {
     shapes.extend(zk_uni);
 
     let kinds: Vec<MutKind> = if thorough {
-        vec![MutKind::Plus1, MutKind::Minus1, MutKind::Zero, MutKind::Random(0), MutKind::Random(1), MutKind::Random(2)]
+        let mut k = vec![MutKind::Plus1, MutKind::Minus1, MutKind::Zero];
+        k.extend((0..7).map(MutKind::Random));
+        k
     } else {
         vec![MutKind::Plus1, MutKind::Random(0)]
     };
